@@ -309,6 +309,11 @@ def gen_comp(rng):
     else:
         L = M if rng.random() < 0.93 else M + 1
         c["log_m2l_arr"] = [round(lg + rng.uniform(-0.5, 0.5), 3) for _ in range(L)]
+    if rng.random() < 0.25:
+        # axes supplied in DESCENDING order (a legitimate input: grid and axes must stay in the declared order)
+        c["gamma_in_arr"] = c["gamma_in_arr"][::-1]
+        if c["pop"]:
+            c["log_m2l_arr"] = c["log_m2l_arr"][::-1]
     for key in ("alpha_rs", "rs_angle", "kappa_s", "rho0", "rs"):
         c[key] = None
     mode = rng.choice(["alpha", "kappa", "rho", "alpha", "kappa", "rho", "alpha+kappa", "kappa+rho", "none",
